@@ -140,7 +140,16 @@ impl PropertyValue {
 
     /// Returns the number of bytes, including any padding bytes, that will be
     /// written by the `write()` method.  Always returns a multiple of four.
+    /// For strings this assumes the UTF-8 code page; see
+    /// `size_including_padding_in()` for the general case.
+    #[allow(dead_code)]
     fn size_including_padding(&self) -> u32 {
+        self.size_including_padding_in(CodePage::Utf8)
+    }
+
+    /// Returns the number of bytes, including any padding bytes, that will be
+    /// written by the `write()` method when using the given code page.
+    fn size_including_padding_in(&self, codepage: CodePage) -> u32 {
         match self {
             PropertyValue::Empty => 4,
             PropertyValue::Null => 4,
@@ -148,7 +157,8 @@ impl PropertyValue {
             PropertyValue::I2(_) => 8,
             PropertyValue::I4(_) => 8,
             PropertyValue::LpStr(ref string) => {
-                ((12 + string.len() as u32) >> 2) << 2
+                let length = codepage.encode(string.as_str()).len() as u32;
+                ((12 + length) >> 2) << 2
             }
             PropertyValue::FileTime(_) => 12,
         }
@@ -339,7 +349,7 @@ impl PropertySet {
         let mut property_offsets: Vec<u32> = Vec::new();
         for (_, value) in self.properties.iter() {
             property_offsets.push(section_size);
-            section_size += value.size_including_padding();
+            section_size += value.size_including_padding_in(self.codepage);
         }
         writer.write_u32::<LittleEndian>(section_size)?;
         writer.write_u32::<LittleEndian>(num_properties)?;
